@@ -5,6 +5,7 @@ import itertools
 import canon_common as cc
 import lib
 import urlgen
+import urlrt
 
 ID = "C01"
 LEAN_MODULE = "UralModel.Props.C01"
@@ -18,23 +19,58 @@ THEOREMS = [
     "Ural.Props.C01.path_unquote_view",
     "Ural.Props.C01.path_quote_view",
     "Ural.Props.C01.canon_path_escaping",
+    "Ural.Props.C01.resolve_view",
+    "Ural.Props.C01.normpath_segments",
+    "Ural.Props.C01.normpath_view",
+    "Ural.Props.C01.pathView_root",
+    "Ural.Props.C01.canon_path",
+    "Ural.Props.C01.canon_path_root",
+    "Ural.Normpath.resolvePath_eq",
+    "Ural.Normpath.segView_render",
     "Ural.Props.C01.canon_no_new_delimiter",
     "Ural.Props.C01.canon_quoted_no_delimiter",
     "Ural.Canonicalize.canonHost_idem",
     "Ural.Canonicalize.punyLaws_id",
+    # the parser inside the model (Props/C01Whole.lean)
+    "Ural.Props.C01.urlsplit_urlunsplit",
+    "Ural.Props.C01.urlsplit_urlunsplit20",
+    "Ural.Props.C01.urlunsplit_models_agree",
+    "Ural.Props.C01.accessors_unsplitNetloc",
+    "Ural.Props.C01.canonParts_wf",
+    "Ural.Props.C01.canonParts_wf_no_bracket",
+    "Ural.Props.C01.canonicalize_reparse_partial",
+    "Ural.Props.C01.canonicalize_reparse",
+    "Ural.Props.C01.reparse_fails_outside",
+    "Ural.Props.C01.canonicalize_same_resource",
+    "Ural.Props.C01.defaultProtocolOk_https",
+    "Ural.CanonRoundTrip.punyClean_id",
+    "Ural.CanonRoundTrip.normpath_abs_shape",
 ]
-TABLE_OBLIGATIONS = ["Ural.Props.C01.tables_percent", "Ural.Props.C01.tables_delims"]
+EXTRA_IMPORTS = ["UralModel.Props.C01Whole"]
+TABLE_OBLIGATIONS = ["Ural.Props.C01.tables_percent", "Ural.Props.C01.tables_delims", "Ural.Props.C01.tables_authority"]
 RULE = (
     "A case is a URL (built from structured components over the token alphabet of the "
     "quantifier, or a raw odd string) x quoted x strip_fragment, default_protocol=https (a "
     "sample also with http / ftp). Model vs implementation: the cleaned string before parsing, "
-    "the SplitResult tuple (unsplit=False) and the final string. Oracle: the 'same resource' "
+    "the SplitResult tuple (unsplit=False) and the final string; the model also evaluates the "
+    "hypotheses of the path theorems (absPath, pathClean) on every parsed path. Oracle: the 'same resource' "
     "view (scheme, decoded userinfo, host key, effective port, resolved decoded segments + "
     "trailing slash, ordered decoded query items, decoded fragment) of the re-parsed output "
     "equals that of the cleaned input. quick: every atom sequence of length <= 1 in each "
     "component + the structure sweep + seeded random URLs; thorough: length <= 2 + more random. "
     "Non-trivial = output differs from input and the URL has an escape, a dot segment, "
-    "userinfo, a port or a non-ASCII character; distinct = distinct (url, options)."
+    "userinfo, a port or a non-ASCII character; distinct = distinct (url, options). "
+    "Parser/printer round trip streams (harness/urlrt.py), on every case: the model's OWN urlsplit + "
+    "SplitResult accessors (parse_url) against CPython on the raw string, on the cleaned string and on "
+    "the real output; the whole-string model canonicalizeUrl (cleaning -> parseUrl -> canonParts -> "
+    "urlunsplit, ValueError included) against the real canonicalize_url; both urlunsplit models against "
+    "the real one. Extra cases: the netloc torture generator (multiple '@', ':' in userinfo, empty / "
+    "leading-zero / too large / non-digit / unicode-digit ports, balanced / unbalanced / IPvFuture / "
+    "zone-id brackets, brackets in userinfo, control characters, tabs and newlines inside, leading "
+    "spaces, scheme look-alikes, scheme-less strings with a later ':', '//' forms, '?' / '#' orders, "
+    "backslashes, and character soup over '[]@:/?#%\\ \tv1aA.'). Strings outside the stated domain of "
+    "the parser model (non-ASCII cased character in the host, NFKC check, IPv4 tail in an IPv6 "
+    "literal) are withheld from these streams and counted (label outside-model:*)."
 )
 EXHAUSTIVE = {
     "quick": "every atom sequence of length <= 1 (66+ atoms) in each of user, password, path segment, query key, query value, fragment x 4 option settings; structure sweep (scheme x host x port, dot-segment paths x query x fragment, userinfo shapes)",
@@ -42,20 +78,29 @@ EXHAUSTIVE = {
 }
 TRUSTED = [
     "Lean 4 kernel; axioms audited",
-    "urlsplit and the SplitResult accessors are CPython: the harness parses the cleaned string with the real parser and ships the components to the model; urlunsplit is modelled by hand (compared on every run)",
+    "urlsplit and the SplitResult accessors (.username .password .hostname .port) are MODELLED (Py/UrlSplit.lean, Py/UrlAccessors.lean) and compared with CPython on every run on the raw, cleaned and printed strings of every case and on the netloc torture strings; the old ops still ship the real parser's components to canonParts, the new op canonicalize_whole lets the model parse by itself, so both ties run; urlunsplit is modelled twice (UrlParts.urlunsplit, Py.urlunsplit20), proved equal (urlunsplit_models_agree) and both compared with the real one",
+    "outside the parser model (withheld from the parse streams, counted): str.lower on non-ASCII cased characters of the host, _checknetloc (NFKC), IPv4 tail inside an IPv6 literal; _check_bracketed_host is otherwise the approximation bracketedHostOk",
+    "PunyClean (the idna decoder brings in no URL delimiter, '%', control or white-space character that its input did not hold) is assumed by the round-trip theorems and tested on the real codec for every label decoded in a run, next to PunyLaws",
     "attempt_to_decode_idna (CPython idna codec) is the abstract parameter `puny`; the driver uses a per-case table computed by the real codec",
     "hand-written model Model/Canonicalize.lean + Model/UrlParts.lean + Model/Quote.lean, tied to the code by differential execution",
     "str.lower / str.strip on non-ASCII characters outside the model alphabet (DESIGN §4) are not modelled",
 ]
 ASSUMPTIONS = ["URLs that the parser rejects (ValueError) are outside the property"]
 UNPROVED = (
-    "path clause: proved that unescaping/quoting never change the segment view (path_unquote_view, "
-    "path_quote_view, canon_path_escaping); that normpath + the trailing-slash / empty-path rules compute "
-    "that view on the unescaped path (plain-string dot-segment resolution) is not yet a theorem: it is "
-    "checked by the oracle on every case and by the model-vs-implementation comparison; re-parsing of "
-    "the printed URL is CPython's urlsplit (oracle re-parses the real output)"
+    "every clause of the statement is a theorem about the components (the path clause: canon_path, for every "
+    "parsed input whose path is empty or starts with '/' -- hypothesis absPath, evaluated by the model on the "
+    "path of every parsed case, `path_hyp` line; it is needed: normpath cannot pop the first segment of a "
+    "relative path, witness in Props/C01.lean). Delimiter clause on the OUTPUT STRING (the parser is inside "
+    "the model): canonicalize_reparse is full for netlocs without brackets; with brackets it is "
+    "canonicalize_reparse_partial (hypotheses: no bracket in userinfo / inside the host text, and the "
+    "canonical host, when it holds ':', still passes the bracket check) - outside them the statement is "
+    "false for the implementation (reparse_fails_outside, KF-C01-1, KF-C01-2). The default protocol must be "
+    "scheme-shaped (DefaultProtocolOk), otherwise the cleaned string has no scheme. NOT theorems: that the "
+    "Lean parser model IS CPython's urlsplit + accessors (compared on every run on raw / cleaned / printed "
+    "strings and on the netloc torture strings), and the IDNA codec (abstract, PunyLaws + PunyClean, tested)"
 )
 OPTS = [(False, False), (True, False), (False, True), (True, True)]
+DPS = ["https", "https", "http", "ftp", "https://", "wss:"]
 
 
 def _mk(parts, quoted, sf, dp="https"):
@@ -80,11 +125,15 @@ def cases(rng, tier):
     for p in urlgen.component_sweep(1 if tier == "quick" else 2):
         for q, sf in OPTS:
             yield _mk(p, q, sf)
+    # netloc torture strings (parser/printer round trip streams, harness/urlrt.py)
+    for k, u in enumerate(urlrt.torture(rng, tier)):
+        q, sf = OPTS[k % 4]
+        yield _mk({"raw": u}, q, sf, DPS[k % len(DPS)] if k % 3 == 0 else "https")
     n = 4000 if tier == "quick" else 60000
     for _ in range(n):
         p = urlgen.random_parts(rng)
         q, sf = rng.choice(OPTS)
-        yield _mk(p, q, sf, rng.choice(["https", "https", "http", "ftp", "https://", "wss:"]))
+        yield _mk(p, q, sf, rng.choice(DPS))
 
 
 def _url(case):
@@ -92,11 +141,13 @@ def _url(case):
 
 
 def ops(case):
-    return cc.ops(_url(case), case["quoted"], case["strip_fragment"], case["dp"])
+    a = (_url(case), case["quoted"], case["strip_fragment"], case["dp"])
+    return cc.ops(*a) + urlrt.ops(*a)
 
 
 def impl(case):
-    return cc.impl(_url(case), case["quoted"], case["strip_fragment"], case["dp"])
+    a = (_url(case), case["quoted"], case["strip_fragment"], case["dp"])
+    return cc.impl(*a) + urlrt.impl(*a)
 
 
 def oracle(case):
@@ -109,6 +160,10 @@ def oracle(case):
         return "cleaning raised %s: %s" % (type(e).__name__, e)
     if cc.parse(cleaned) is None:
         return None  # does not parse: outside the property
+    # the hypotheses the theorems make on attempt_to_decode_idna, on the real codec
+    bad = urlrt.puny_laws_failure(urlrt.puny_of(cleaned))
+    if bad:
+        return bad
     try:
         out = canonicalize_url(url, default_protocol=case["dp"], quoted=case["quoted"], strip_fragment=case["strip_fragment"])
     except Exception as e:  # noqa
@@ -133,6 +188,37 @@ def oracle(case):
     return None
 
 
+def kf_userinfo_brackets(case, failure):
+    """KF-C01-1: a raw '[' or ']' in the userinfo.  CPython's bracket check reads the text
+    between the FIRST '[' of the netloc and the next ']', wherever they are: brackets in the
+    userinfo shield the host's own brackets from the check (or are themselves checked as an
+    address), and any change canonicalize_url makes to the userinfo (escaping the brackets in
+    quoted mode, decoding an escape between them) exposes a netloc the parser refuses or
+    reads differently."""
+    from urllib.parse import urlsplit
+
+    try:
+        r = urlsplit(cc.clean_impl(_url(case), case["dp"]))
+    except Exception:  # noqa
+        return False
+    ui = r.netloc.rpartition("@")[0]
+    return "[" in ui or "]" in ui
+
+
+def kf_bracket_in_host_text(case, failure):
+    """KF-C01-2: a bracketed host whose text holds '[' and no ':' (IPvFuture 'v1.[', the
+    parser accepts anything after the dot): unsplit_netloc only puts brackets back around a
+    host holding ':', so the printed netloc has one unmatched bracket."""
+    from urllib.parse import urlsplit
+
+    try:
+        r = urlsplit(cc.clean_impl(_url(case), case["dp"]))
+    except Exception:  # noqa
+        return False
+    h = r.hostname or ""
+    return "[" in h and ":" not in h and "no longer parses" in failure
+
+
 def nontrivial(case):
     url = _url(case)
     if any(c in url for c in "%@") or not url.isascii() or "/." in url or case["parts"].get("port"):
@@ -153,6 +239,9 @@ def classify(case):
         labs.append("dot-segment")
     if "raw" in case["parts"]:
         labs.append("raw-string")
+    w = urlrt.outside_model(url)
+    if w:
+        labs.append("outside-model:" + w)
     elif cc.parse(lib.guarded(cc.clean_impl, url, case["dp"]) if True else "") is None:
         labs.append("unparseable")
     return labs
